@@ -92,7 +92,8 @@ def gen_cases(tier, rng):
     for c in common.load_corpus(PID):
         if c.get("mask") is not None:
             c["mask"] = tuple(c["mask"])
-        yield c
+        if not c.get("nonfinite"):
+            yield c
     if tier == "quick":
         plan = [("f64", 4, (1, 2, 3), 1.0, 0.15), ("i64", 3, (1, 2), 1.0, 0.1), ("i32", 3, (1, 2), 1.0, 0.1),
                 ("u8", 3, (1, 2), 1.0, 0.1), ("bool", 3, (1, 2), 1.0, 0.1), ("M8ns", 3, (1, 2), 1.0, 0.1),
@@ -185,7 +186,104 @@ def shrink_candidates(case):
         yield {**case, "threads": case["threads"] - 1}
 
 
+def gen_nonfinite(tier, rng):
+    """floats with +-inf next to nulls: a block's partial sum can be NaN (inf - inf) although it is data, not a null.
+    The value model has no infinities, so this stream is metamorphic: block-wise == single pass == a sequential float oracle."""
+    for _ in range(1500 if tier == "quick" else 20000):
+        n = rng.randint(2, 10)
+        codes = [rng.choice([-1, 0, 0, 1, 1, 2]) for _ in range(n)]
+        vals = [rng.choice([None, 1, 2, "inf", "-inf", "inf", "-inf"]) for _ in range(n)]
+        ch = None
+        if rng.random() < 0.4:
+            k = rng.randint(2, 4)
+            cuts = sorted(rng.randint(0, n) for _ in range(k - 1))
+            ch = [b - a for a, b in zip([0] + cuts, cuts + [n])]
+        m = rng.choice([None, None, ("b", [rng.random() < 0.7 for _ in range(n)]), ("p", [rng.randrange(n) for _ in range(rng.randint(0, n + 2))])])
+        yield dict(nonfinite=True, fn=rng.choice(["sum", "mean", "min", "max", "count", "sum_squares", "first", "last"]), dt="f64", ng=3, codes=codes,
+                   vals=vals, mask=m, threads=rng.randint(2, 4) if ch is None else rng.randint(1, 3), vchunks=ch)
+
+
+def eval_nonfinite(case):
+    import math
+    import numpy as np
+    from ..kernelcases import mask_object
+    from ..numba_env import import_lib
+    import_lib()
+    import pyarrow as pa
+    from groupby_lib.groupby import numba as nbk
+    codes = np.array(case["codes"], dtype=np.int64)
+    values = np.array([np.nan if v is None else float(v) for v in case["vals"]], dtype=np.float64)
+    mask = mask_object(case.get("mask"))
+    fn = getattr(nbk, "group_" + case["fn"])
+
+    def canon(a):
+        return ["_" if math.isnan(x) else x for x in np.asarray(a, dtype=np.float64).tolist()]
+    try:
+        single, scount = fn(group_key=codes, values=values, ngroups=case["ng"], mask=mask, n_threads=1, return_count=True)
+        vv = values
+        if case.get("vchunks") is not None:
+            offs = np.cumsum([0] + list(case["vchunks"]))
+            vv = pa.chunked_array([pa.array(values[a:b]) for a, b in zip(offs[:-1], offs[1:])])
+        block, bcount = fn(group_key=codes, values=vv, ngroups=case["ng"], mask=mask, n_threads=case["threads"], return_count=True)
+    except Exception as e:  # noqa
+        return "violation", dict(case=case, expected="a result", actual=f"error:{type(e).__name__}: {str(e)[:160]}")
+    # sequential oracle in row (visiting) order
+    n = len(codes)
+    if mask is None:
+        order = list(range(n))
+    elif mask.dtype == bool:
+        order = [i for i in range(n) if mask[i]]
+    else:
+        order = [int(i) for i in mask]
+    exp = None
+    if case["fn"] in ("sum", "min", "max", "count", "sum_squares"):
+        exp = []
+        for g in range(case["ng"]):
+            xs = [values[i] for i in order if codes[i] == g and not math.isnan(values[i])]
+            if case["fn"] == "count":
+                exp.append(float(len(xs)))
+            elif case["fn"] == "sum":
+                acc = 0.0
+                for x in xs:
+                    acc += x
+                exp.append(acc)
+            elif case["fn"] == "sum_squares":
+                exp.append(float(sum(x * x for x in xs)))
+            else:
+                exp.append((min(xs) if case["fn"] == "min" else max(xs)) if xs else float("nan"))
+        exp = canon(exp)
+    if canon(block) != canon(single) or list(map(int, bcount)) != list(map(int, scount)):
+        return "violation", dict(case=case, expected=f"single pass: {canon(single)} counts {list(map(int, scount))}",
+                                 actual=f"block-wise: {canon(block)} counts {list(map(int, bcount))}", note="block-wise != single pass (non-finite values)")
+    if exp is not None and canon(single)[:case["ng"]] != exp:
+        return "violation", dict(case=case, expected=f"sequential float oracle: {exp}", actual=f"single pass: {canon(single)}",
+                                 note="single pass != definition (non-finite values)")
+    return "ok", None
+
+
+def shrink_nonfinite(case):
+    n = len(case["codes"])
+    if case.get("mask") is not None:
+        yield {**case, "mask": None}
+    if case.get("vchunks") is not None and n >= 2:
+        yield {**case, "vchunks": [n // 2, n - n // 2], "threads": 1}
+    for i in range(n):
+        if n <= 2 or (case.get("mask") is not None and case["mask"][0] == "p"):
+            break
+        c = {**case, "codes": case["codes"][:i] + case["codes"][i + 1:], "vals": case["vals"][:i] + case["vals"][i + 1:]}
+        if case.get("mask") is not None:
+            c["mask"] = ("b", case["mask"][1][:i] + case["mask"][1][i + 1:])
+        if case.get("vchunks") is not None:
+            c["vchunks"] = [(n - 1) // 2, (n - 1) - (n - 1) // 2]
+        yield c
+    for i, v in enumerate(case["vals"]):
+        if v in (2,):
+            yield {**case, "vals": case["vals"][:i] + [1] + case["vals"][i + 1:]}
+
+
 def run_case(drv, case):
+    if case.get("nonfinite"):
+        return eval_nonfinite(case), {"model": "n/a", "spec": "n/a"}
     ans = drv.ask(proto_line(case))
     return evaluate(case, ans), ans
 
@@ -274,7 +372,9 @@ def main(tier: str, seed: int) -> int:
     run = common.Run(PID, tier, seed, rule=(
         "exhaustive enumeration of code strings (restricted-growth over {null,0,1,2}) x value strings over a small "
         "alphabet containing null, per dtype class, x 9 kernels x 1..4 thread blocks; masks of every kind and arrow-chunked "
-        "values sampled per case; non-trivial = at least two rows with a non-null code; distinct = distinct protocol line"))
+        "values sampled per case; plus a seeded stream of float arrays holding +-inf next to nulls (a block's partial sum can be NaN although "
+        "it is data) x 8 kernels x masks x threads 1..4 x value chunkings: block-wise == single pass == a sequential float oracle; "
+        "non-trivial = at least two rows with a non-null code; distinct = distinct protocol line"))
     run.assumptions = [
         "codes < ngroups, positions within [-n, n) (the kernels do no bounds check below -n)",
         "float values are small integers (no rounding, no inf-inf), int64 partial sums never equal the int64 minimum",
@@ -302,6 +402,28 @@ def main(tier: str, seed: int) -> int:
         run.extra["completion_orders_permuted"] = run.extra.get("completion_orders_permuted", 0) + r["orders"]
         for k, v in r["first_bad"].items():
             first_bad.setdefault(k, v)
+
+    # the non-finite stream (metamorphic, no model): corpus first
+    import random as _random
+    pool.install_inline()
+    nf_rng = _random.Random(seed + 77)
+    nf_seen = set()
+    nf_cases = [c for c in common.load_corpus(PID) if c.get("nonfinite")]
+    for c in nf_cases:
+        if c.get("mask") is not None:
+            c["mask"] = tuple(c["mask"])
+    for case in itertools.chain(nf_cases, gen_nonfinite(tier, nf_rng)):
+        verdict, detail = eval_nonfinite(case)
+        run.evals += 1
+        run.tags["stream:non-finite"] += 1
+        run.tags[f"nf-fn:{case['fn']}"] += 1
+        run.distinct.add(common.digest("nf|" + json.dumps(case, sort_keys=True, default=str)))
+        if verdict != "ok":
+            k = (case["fn"], detail.get("note"))
+            if k not in nf_seen and len(nf_seen) < 6:
+                nf_seen.add(k)
+                small = common.greedy_shrink(case, shrink_nonfinite, lambda c, note=detail.get("note"): (lambda r: r[0] == "violation" and r[1].get("note") == note)(eval_nonfinite(c)), budget=80)
+                run.violation(eval_nonfinite(small)[1] or detail)
 
     # shrink and record one representative per (verdict, kernel, dtype, mask kind, chunked)
     if first_bad:
